@@ -615,6 +615,8 @@ impl CompactionWorker {
 
                 while file_iterator.is_valid() && !db_state.is_shutting_down.load(Ordering::Acquire)
                 {
+                    #[cfg(raindb_verif)]
+                    crate::verif_hooks::sched::point("compact:loop");
                     if db_state.has_immutable_memtable.load(Ordering::Acquire) {
                         // Prioritize compacting an immutable memtable if there is one
                         let memtable_compaction_start = Instant::now();
